@@ -1595,6 +1595,10 @@ class ClassicChannel(utils.EventEmitter):
         self.manager.on_channel_closed(self)
 
     def on_disconnection_response(self, response: L2CAP_Disconnection_Response) -> None:
+        if self.state != self.State.WAIT_DISCONNECT:
+            logger.warning(color('invalid state', 'red'))
+            return
+
         if (
             response.destination_cid != self.destination_cid
             or response.source_cid != self.source_cid
